@@ -1,1 +1,2 @@
 pub mod points;
+pub mod world;
